@@ -33,7 +33,7 @@ ASSUMPTIONS = [
     "scenes obey the same general-position / well-separated classes as C02 / C03 so that the reference itself is unambiguous",
 ]
 TIERS = {
-    "quick": {"runs": 1500, "time_cap_s": 90, "chunk": 10, "det_inproc": 4, "det_fresh": 2, "minimise_s": 60},
+    "quick": {"runs": 2500, "time_cap_s": 90, "chunk": 10, "det_inproc": 4, "det_fresh": 2, "minimise_s": 60},
     "thorough": {"runs": 100000, "time_cap_s": 1200, "chunk": 30, "det_inproc": 16, "det_fresh": 8, "minimise_s": 180},
 }
 
